@@ -527,6 +527,10 @@ type WalkSpec struct {
 	Sort     string `json:"sort,omitempty"` // e.g. id:asc (the API's sort parameter); empty = the route's default
 	Back     bool   `json:"back,omitempty"` // then follow the previous cursors back from the last page
 	MaxPages int    `json:"max_pages,omitempty"`
+	// Filter: a query body sent with the first page (the cursors carry it on); Keep names the reference predicate:
+	// "u2" = the account (of the entity) is u:<one segment>
+	Filter string `json:"filter,omitempty"`
+	Keep   string `json:"keep,omitempty"`
 }
 
 // WalkPage is one page of a walk as the client saw it.
